@@ -1,4 +1,6 @@
 """C14 — parallel validation = serial validation, race-free (E7 `conc`: c14_overlay + c14_blocks, tsan and asan)."""
+import os
+
 from lib.driver import Run
 
 ID = "C14"
@@ -40,6 +42,8 @@ def runs(tier, seed):
         ov = 320
         blk = dict(cases=6, params={"blocks": 3, "max_inputs": 700, "configs": 6}, timeout=1200)
     to = 2400 if tier == "thorough" else 900
+    if os.environ.get("VH_C14_TIMEOUT"):  # only to shorten the watchdog when demonstrating a deadlock mutant
+        to = blk["timeout"] = int(os.environ["VH_C14_TIMEOUT"])
     return [
         Run("c14_overlay", cases=ov, flavour="tsan", name="overlay-tsan", timeout=to),
         Run("c14_overlay", cases=ov, flavour="asan", name="overlay-asan", timeout=to),
